@@ -136,7 +136,7 @@ def run(cmd, timeout, cwd=None, mem_kb=None, stdout_path=None):
     t0 = time.time()
     pre = ""
     if mem_kb:
-        pre = "ulimit -v %d; " % mem_kb
+        pre = "ulimit -s unlimited 2>/dev/null; ulimit -v %d; " % mem_kb
     sh = pre + "exec " + " ".join(shlex.quote(c) for c in cmd)
     out = open(stdout_path, "wb") if stdout_path else subprocess.PIPE
     try:
